@@ -48,6 +48,25 @@ func c36Source(c *core.Ctx, r *core.R) []*wm.Spec {
 			c.Count("closed_paths")
 		}
 	}
+	// features with many tags (17-40: more than any per-goroutine scratch sized for the usual handful)
+	if r.Chance(0.6) {
+		for i, n := 0, r.Range(2, 6); i < n; i++ {
+			var wide *wm.Spec
+			for _, s := range specs {
+				if len(s.Tags) <= 3 && r.Chance(0.3) && s.ID.Type != b6.FeatureTypeRelation {
+					wide = s
+					break
+				}
+			}
+			if wide == nil {
+				continue
+			}
+			for k, nk := 0, r.Range(17, 40); k < nk; k++ {
+				wide.Tags = append(wide.Tags, b6.Tag{Key: fmt.Sprintf("wide:%02d", k), Value: b6.NewStringExpression(fmt.Sprintf("%s-%d", wide.ID.Type, k))})
+			}
+			c.Count("features_with_many_tags")
+		}
+	}
 	var points []*wm.Spec
 	for _, s := range specs {
 		if s.ID.Type == b6.FeatureTypePoint {
@@ -200,7 +219,7 @@ func init() {
 		CaseCap: 60 * time.Minute,
 		Required: []string{"kind_basic", "kind_compact", "basic_goroutines_2", "basic_goroutines_7", "basic_goroutines_16",
 			"compact_goroutines_1", "compact_goroutines_2", "compact_goroutines_4", "compact_goroutines_8", "compact_goroutines_16", "clockwise_loops", "area_before_its_path",
-			"invalid_features", "order_shuffled", "order_areas_first", "builds_compared"},
+			"invalid_features", "order_shuffled", "order_areas_first", "builds_compared", "features_with_many_tags"},
 		Run: func(c *core.Ctx) {
 			r := c.R
 			kind := "basic"
